@@ -95,7 +95,7 @@ CHECKS = {
   "technique": "TLC validation of hexsim runs against HexISA (unwritten memory = 0 by definition) + Determinism.tla histories over host-memory states, -t and --max-cycles",
   "text": "Every run (images that read words they never wrote included) under dirty/clean placement, MALLOC_PERTURB_, -t and cycle limits is "
           "compared with the HexISA behaviour after the same number of instructions, and all observations of one (image, input, options) key must agree.",
-  "note": "How many instructions --max-cycles N admits is not judged. Executable-level input consumption = offset of a seekable standard input after exit."},
+  "note": "How many instructions --max-cycles N admits is not judged. Executable-level input consumption = offset of a seekable standard input after exit. One known finding is listed in known_findings.json (C12-oob-address: data addresses of 200000 words and more are served from host memory; DESIGN.md I.6) and printed as KNOWN-FINDING on every run."},
  "C16": {"level": "model_checking", "design_ref": "DESIGN.md 2.2, 5 (C16)",
   "technique": "TLC validation of three Verilated builds against HexRTL on identical stimulus + byte-identity of their records + text identity of the two .v copies",
   "text": "processor.sv, verilog/processor.v and synth/processor.v are stepped stand-alone on identical stimulus (all 256 bytes, out-of-range "
